@@ -1,8 +1,8 @@
 import OjgVerif.Props.C05
 import OjgVerif.JPath.LemmasRfc
 import OjgVerif.JPath.LemmasMach
+import OjgVerif.JPath.LemmasTyped
 import OjgVerif.Gen.JpathFacts
-import OjgVerif.JPath.Arms
 /-! # C11 — every JSONPath evaluator and data representation agrees with Get
 
 **What the models are, up front.**
@@ -535,6 +535,117 @@ theorem C11_first_typed_slice_witness :
     (getM Cfg.pinned ⟨.rslice, .struct⟩ [.slice (some 1) (some 1) none] (.arr [.int 1, .int 2, .int 3])).length = 0 := by
   decide
 
+/-! ## The machines on every representation; typed slices and arrays exactly -/
+
+/-- **the FirstFound machine computes the skeleton model on every representation tag** (so every statement about
+`firstM` is one about the machine): every configuration, every tree, every path not ending in a bare descent -/
+theorem C11_first_machine_skeleton (cfg : Cfg) (rep : Rep)
+    (hcut : (cfg.typedMapWild && decide (rep.ok = OKind.rmap)) = false)
+    (x : List Frag) (d : JV) (ht : endsInDescent x = false) :
+    firstMach cfg rep x d = firstM cfg rep x d :=
+  firstMach_eq_firstM cfg rep hcut x d ht
+
+/-- the same for Has (has.go's kind lists complete: `hasTypedMap`, `hasTypedDescent` off, since 21977aa) -/
+theorem C11_has_machine_skeleton (cfg : Cfg) (rep : Rep) (hd : cfg.hasTypedDescent = false)
+    (hh : cfg.hasTypedMap = false) (hcut : (cfg.typedMapWild && decide (rep.ok = OKind.rmap)) = false)
+    (x : List Frag) (d : JV) (ht : endsInDescent x = false) :
+    hasMach cfg rep x d = hasM cfg rep x d :=
+  hasMach_eq_hasM cfg rep hd hh hcut x d ht
+
+/-- **FirstFound and Has on typed slices and arrays, for the code as it is now, exactly.** The one deviation
+left (`firstTypedSlice`, pinned by TestExprFirst/TestExprHas) is that a slice fragment `[s:e:t]` is read as the
+index `[s]` (`typedView`; nothing if the step is written 0). With that reading of the path, on every typed
+representation (typed slice or array; struct or typed map), every path not ending in a bare descent, every
+tree: **Has (the machine) is true exactly when Get — on the plain `[]any`/`map[string]any` data — has a result
+for the viewed path**, and, when the objects are not structs (`reflectGetWildOne` returns the last field of a
+struct, so the order differs there), **FirstFound (the machine) returns the first of those results**. -/
+theorem C11_typed_first_has_current (rep : Rep) (hty : rep.ak.typed = true) (x : List Frag) (d : JV)
+    (ht : endsInDescent x = false) :
+    hasMach Cfg.pinned rep x d = !(getM Cfg.pinned Rep.simple (x.map typedView) d).isEmpty ∧
+    (rep.ok ≠ OKind.struct →
+      firstMach Cfg.pinned rep x d = (getM Cfg.pinned Rep.simple (x.map typedView) d).head?) := by
+  have hg : getM Cfg.pinned Rep.simple (x.map typedView) d
+      = (getS Cfg.pinned rep (x.map typedView) d).map (·.2) := by
+    rw [← C11_repr_current rep, C05.machine_eq_skeleton Cfg.pinned rep rfl]
+  refine ⟨?_, ?_⟩
+  · rw [hasMach_eq_hasM Cfg.pinned rep rfl rfl rfl x d ht, has_typed_view Cfg.pinned rep hty rfl rfl rfl rfl rfl x d, hg]
+    simp
+  · intro hst
+    rw [firstMach_eq_firstM Cfg.pinned rep rfl x d ht, first_typed_view Cfg.pinned rep hty rfl rfl rfl hst x d, hg]
+
+/-- the view is the identity on a path without a slice fragment -/
+theorem typedView_noSlice (x : List Frag) (h : x.all (fun f => match f with | .slice _ _ _ => false | _ => true) = true) :
+    x.map typedView = x := by
+  induction x with
+  | nil => rfl
+  | cons f t ih =>
+    simp only [List.all_cons, Bool.and_eq_true] at h
+    rw [List.map_cons, ih h.2]
+    cases f <;> simp_all [typedView]
+
+/-- **C11 for First/Has on typed representations, paths without a slice fragment** (the code as it is now):
+Has ⇔ Get non-empty, FirstFound = the first of Get's results (objects not structs) -/
+theorem C11_typed_no_slice_current (rep : Rep) (hty : rep.ak.typed = true) (x : List Frag) (d : JV)
+    (hns : x.all (fun f => match f with | .slice _ _ _ => false | _ => true) = true)
+    (ht : endsInDescent x = false) :
+    hasMach Cfg.pinned rep x d = !(getM Cfg.pinned Rep.simple x d).isEmpty ∧
+    (rep.ok ≠ OKind.struct → firstMach Cfg.pinned rep x d = (getM Cfg.pinned Rep.simple x d).head?) := by
+  have h := C11_typed_first_has_current rep hty x d ht
+  rwa [typedView_noSlice x hns] at h
+
+/-- non-trivial instances: `$..a[1:3][?]` viewed is `$..a[1][?]`; `$[::0]` viewed selects nothing; the
+hypotheses hold for `⟨typed slice, typed map⟩` and `$..a[*].b` -/
+example : (AK.typed (Rep.ak ⟨.rslice, .rmap⟩) = true) ∧ (Rep.ok ⟨.rslice, .rmap⟩ ≠ OKind.struct) ∧
+    endsInDescent [.descent, .child [97], .wild, .child [98]] = false ∧
+    [Frag.descent, .child [97], .wild, .child [98]].all (fun f => match f with | .slice _ _ _ => false | _ => true) = true := by
+  decide
+
+/-! ## History: the model evaluators are functions of (path, data)
+
+A parsed `jp.Expr` is a Go value that callers keep and reuse; an evaluator that wrote into it (seeded C11-m7:
+`Filter.withRoot` rooting the caller's filter in place, so that `Get(docB)` after `Locate(docA)` read `$` from
+docA) would make the answer depend on the calls made before. **Nothing in the Lean model can express that**: the
+model evaluators take the path as a value and return only results. The statement below records exactly this —
+in the model a sequence of calls on one path is answered call by call — so that it is clear what the theorems of
+this file do *not* cover: that the Go evaluators leave the Expr alone is checked by the run (stream `history`:
+one parsed Expr, a sequence of calls over three documents, each compared with a freshly parsed Expr) and by
+the tripwire `exprNotWritten` of `pinned_is_source`. -/
+
+/-- an evaluator call -/
+inductive Call where
+  | get | first | has | locate | walk | nodes | firstnode
+  deriving DecidableEq
+
+/-- what a call answers in the model (for the code as it is now; the machines / recursive programs) -/
+structure Ans where
+  vals : List JV := []
+  located : List (Path × JV) := []
+  found : Option JV := none
+  has : Bool := false
+
+def answerOf (rep : Rep) (x : List Frag) (c : Call) (d : JV) : Ans :=
+  match c with
+  | .get => { vals := getM Cfg.pinned rep x d }
+  | .first => { found := firstMach Cfg.pinned rep x d }
+  | .has => { has := hasMach Cfg.pinned rep x d }
+  | .locate => { located := locateRec Cfg.pinned rep x 0 d }
+  | .walk => { located := walkRecM Cfg.pinned rep x d }
+  | .nodes => { vals := nodesM Cfg.pinned x d }
+  | .firstnode => { found := firstNodeM Cfg.pinned x d }
+
+/-- one path value through a sequence of calls on any documents: the model has no state to carry -/
+def answerAll (rep : Rep) (x : List Frag) : List (Call × JV) → List Ans
+  | [] => []
+  | (c, d) :: r => answerOf rep x c d :: answerAll rep x r
+
+/-- **history independence of the model** (by construction — see the section comment for what this does and
+does not say): the answer to the `i`-th call depends on that call's evaluator and document only -/
+theorem model_history_independent (rep : Rep) (x : List Frag) (h : List (Call × JV)) :
+    answerAll rep x h = h.map fun cd => answerOf rep x cd.1 cd.2 := by
+  induction h with
+  | nil => rfl
+  | cons a t ih => obtain ⟨c, d⟩ := a; simp [answerAll, ih]
+
 /-! ## The model of the current code is the current code's -/
 
 /-- A **regression tripwire**, not a proof about the code: `Gen.JpathFacts` holds one Bool per deviation,
@@ -565,51 +676,9 @@ theorem pinned_is_source :
     Cfg.pinned.locFilterRootNil = Gen.JpathFacts.locFilterRootNil ∧
     Cfg.pinned.walkFilterRootSelf = Gen.JpathFacts.walkFilterRootSelf ∧
     -- not a flag: Get, FirstFound, Has, GetNodes and FirstNode hand their own argument to a filter as its root
-    Gen.JpathFacts.filterRootIsArgument = true := by decide
-
-/-! ## The arms of the model are arms of the source
-
-`Gen.JpathArms` (tools/extract/jpath_arms.go) lists every switch of the evaluators of jp/ with its arms in source
-order; `JPath/Arms.lean` says which arm each (fragment kind × container kind) of the model needs. Like
-`pinned_is_source` these are **tripwires on the shape of the source** (`decide` over the generated table), not
-proofs about what the arms do: dropping a container type from a `prev`/`data` switch, a kind from the list of
-kinds that are handed on to the next fragment, a reflect kind from a helper, or a fragment case breaks them. -/
-
-open OjgVerif.JPath.Arms in
-/-- the fragment switch of each of the five stack machines has a case for every fragment kind of the model -/
-theorem arms_fragment_cases :
-    (machines ++ genMachines).all fragCases = true := by decide +kernel
-
-open OjgVerif.JPath.Arms in
-/-- **Get, FirstFound, Has: every (fragment kind × array kind × object kind) arm of the model is in the source**
-(`[]any`, `gen.Array`, `Indexed`, `map[string]any`, `gen.Object`, `Keyed` by name, typed data by the `default:`
-arm) -/
-theorem arms_machines (a : AK) (o : OKind) : machineArms a o = true := by
-  cases a <;> cases o <;> decide +kernel
-
-open OjgVerif.JPath.Arms in
-/-- Get, FirstFound, Has hand on every container kind: every `switch v.(type)` in a fragment case lists
-`gen.Object, gen.Array`, those with a `default:` arm list `map[string]any, []any, gen.Object, gen.Array, Keyed,
-Indexed`, and every reflect fallback lists `reflect.Ptr, reflect.Slice, reflect.Struct, reflect.Array,
-reflect.Map` (a dropped kind — seeded C11-m3: no Child into a fixed-size array — breaks this) -/
-theorem arms_push_kinds : machines.all pushKinds = true := by decide +kernel
-
-open OjgVerif.JPath.Arms in
-/-- GetNodes, FirstNode: every fragment case, `gen.Object`/`gen.Array` under wildcard and descent and in every
-hand-on test -/
-theorem arms_gen_machines : genMachines.all genArms = true := by decide +kernel
-
-open OjgVerif.JPath.Arms in
-/-- **the locate and Walk methods: every (fragment kind × container kind) arm of the model is in the source**,
-and `locateNthChildHas`/`locateContinueFrag` continue into every container kind -/
-theorem arms_recursive (a : AK) (o : OKind) : recursiveArms a o = true ∧ locateContinueKinds = true := by
-  cases a <;> cases o <;> decide +kernel
-
-open OjgVerif.JPath.Arms in
-/-- **typed representations: the reflect kind is an arm of every helper it is reached through**
-(reflectGetChild/Nth/Wild/WildOne/Slice, evalWithRoot, the reflect branches of the locate methods, wildWalk,
-Filter.Walk) -/
-theorem arms_reflect (a : AK) (o : OKind) : reflectArms a o = true := by
-  cases a <;> cases o <;> decide +kernel
+    Gen.JpathFacts.filterRootIsArgument = true ∧
+    -- not a flag: no evaluator (nor Filter.withRoot / Expr.rootedFilters / nestedRoot) writes through the Expr or
+    -- Filter it is given; rooting a filter makes a new one (seeded C11-m7 rooted the caller's filter in place)
+    Gen.JpathFacts.exprNotWritten = true := by decide
 
 end OjgVerif.C11
